@@ -1,5 +1,5 @@
 //@ unit entry_follow
-//@ props C10 C12 C11
+//@ props C10 C12 C11 C08
 // Entry::follow on both backends' entry types (plain struct code): follow(true) on a link swaps path and alt exactly once.
 //@ prelude base errors iter path_abs memfs_state
 //@ struct file=src/sys/fs/memfs/file.rs name=MemfsFile
@@ -23,7 +23,7 @@ impl MemfsEntry {
 //@ item m_upcast file=src/sys/fs/memfs/entry.rs block="impl Entry for MemfsEntry" fn=upcast
     pub fn upcast(self) -> (r: VfsEntry) ensures r == VfsEntry::Memfs(self)
 //@ body
-//@ item m_follow file=src/sys/fs/memfs/entry.rs block="impl Entry for MemfsEntry" fn=follow props=C10,C12
+//@ item m_follow file=src/sys/fs/memfs/entry.rs block="impl Entry for MemfsEntry" fn=follow props=C10,C12,C08
 //@ sig fn follow(mut self, follow: bool) -> VfsEntry
 //@ rw R2 + re⟦\bself\b⟧ => ⟦this⟧
 //@ rw R4 * ⟦std::mem::swap(&mut this.path, &mut this.alt);⟧ => ⟦swap_paths(&mut this.path, &mut this.alt);⟧
@@ -36,8 +36,8 @@ impl MemfsEntry {
                 let o = r->Memfs_0;
                 let swap = follow && self.link && !self.follow;
                 // swapped exactly when asked to follow a link that has not been followed yet; a second follow(true) is the identity
-                &&& swap ==> o.path.comps() == self.alt.comps() && o.alt.comps() == self.path.comps() && o.follow                 //@ clause follow.swaps_once [C10]
-                &&& !swap ==> o.path.comps() == self.path.comps() && o.alt.comps() == self.alt.comps() && o.follow == self.follow   //@ clause follow.otherwise_identity [C10]
+                &&& swap ==> o.path.comps() == self.alt.comps() && o.alt.comps() == self.path.comps() && o.follow                 //@ clause follow.swaps_once [C10,C08]
+                &&& !swap ==> o.path.comps() == self.path.comps() && o.alt.comps() == self.alt.comps() && o.follow == self.follow   //@ clause follow.otherwise_identity [C10,C08]
                 &&& o.rel.comps() == self.rel.comps() && o.dir == self.dir && o.file == self.file && o.link == self.link && o.mode == self.mode
                 &&& o.uid == self.uid && o.gid == self.gid && kids_of(o.files) == kids_of(self.files)
             }),
@@ -47,7 +47,7 @@ impl StdfsEntry {
 //@ item s_upcast file=src/sys/fs/stdfs/entry.rs block="impl Entry for StdfsEntry" fn=upcast
     pub fn upcast(self) -> (r: VfsEntry) ensures r == VfsEntry::Stdfs(self)
 //@ body
-//@ item s_follow file=src/sys/fs/stdfs/entry.rs block="impl Entry for StdfsEntry" fn=follow props=C10,C12
+//@ item s_follow file=src/sys/fs/stdfs/entry.rs block="impl Entry for StdfsEntry" fn=follow props=C10,C12,C08
 //@ sig fn follow(mut self, follow: bool) -> VfsEntry
 //@ rw R2 + re⟦\bself\b⟧ => ⟦this⟧
 //@ rw R4 * ⟦std::mem::swap(&mut this.path, &mut this.alt);⟧ => ⟦swap_paths(&mut this.path, &mut this.alt);⟧
@@ -59,8 +59,8 @@ impl StdfsEntry {
             ({
                 let o = r->Stdfs_0;
                 let swap = follow && self.link && !self.follow;
-                &&& swap ==> o.path.comps() == self.alt.comps() && o.alt.comps() == self.path.comps() && o.follow                 //@ clause follow.swaps_once [C10]
-                &&& !swap ==> o.path.comps() == self.path.comps() && o.alt.comps() == self.alt.comps() && o.follow == self.follow   //@ clause follow.otherwise_identity [C10]
+                &&& swap ==> o.path.comps() == self.alt.comps() && o.alt.comps() == self.path.comps() && o.follow                 //@ clause follow.swaps_once [C10,C08]
+                &&& !swap ==> o.path.comps() == self.path.comps() && o.alt.comps() == self.alt.comps() && o.follow == self.follow   //@ clause follow.otherwise_identity [C10,C08]
                 &&& o.rel.comps() == self.rel.comps() && o.dir == self.dir && o.file == self.file && o.link == self.link && o.mode == self.mode
             }),
 //@ body
